@@ -386,7 +386,7 @@ func (f *FibStrategyHashTable) GetAllFIBEntries() []FibStrategyEntry {
 	entries := make([]FibStrategyEntry, 0)
 	for _, v := range f.realTable {
 		if len(v.nexthops) > 0 {
-			entries = append(entries, v)
+			entries = append(entries, v.snapshot())
 		}
 	}
 
@@ -428,7 +428,7 @@ func (f *FibStrategyHashTable) GetAllForwardingStrategies() []FibStrategyEntry {
 	entries := make([]FibStrategyEntry, 0)
 	for _, v := range f.realTable {
 		if v.strategy != nil {
-			entries = append(entries, v)
+			entries = append(entries, v.snapshot())
 		}
 	}
 
